@@ -1,7 +1,8 @@
 (* C02 — analysis terminates on every finite input without the watchdog.
-   Proved: the lexer (every Advance strictly decreases a potential; total with linear fuel), the main loop of the
+   Proved: the lexer (every Advance strictly decreases a potential; total with linear fuel), the token stream as the
+   evaluation loop reads it (parser.Read driven to end of stream: total, at most 3|s|+4 Reads), the main loop of the
    driver (one iteration per top-level step).  The evaluator's own loops are reached by exploration only. *)
-From RT Require Import Model.Driver Model.Lexer Model.Parser Proofs.DriverP Proofs.LexerP Proofs.ParserP.
+From RT Require Import Model.Driver Model.Lexer Model.Parser Proofs.DriverP Proofs.LexerP Proofs.ParserP Proofs.StreamP.
 
 Theorem C02_lexer : forall is_uspace is_udigit,
   is_uspace 0%N = false -> is_udigit 0%N = false -> is_uspace ch_dot = false ->
@@ -19,3 +20,26 @@ Print Assumptions C02_lexer.
 Theorem C02_loop : forall cr file s, po_iterations (eval_loop cr file s empty_out) = List.length s.
 Proof. exact loop_iterations_bounded. Qed.
 Print Assumptions C02_loop.
+
+(* the token stream the evaluator consumes (read_all = parser.Read until end of stream; the function the correspondence
+   runs against the code): for every source text it is produced with fuel linear in the text, ends with end-of-stream
+   after at most 3|s|+3 tokens and contains no `read error` — files ending inside a comment, a string or a definition
+   included, since s is arbitrary *)
+Theorem C02_token_stream : forall is_uspace is_udigit is_uupper is_ulower bc,
+  is_uspace 0%N = false -> is_udigit 0%N = false -> is_uspace ch_dot = false ->
+  (forall c, is_udigit c = true -> ((c =? 120) || (c =? 111) || (c =? 98))%N = false /\ (c =? ch_under)%N = false /\ (c =? ch_dot)%N = false) ->
+  forall s, exists toks row erow,
+    read_all is_uspace is_udigit is_uupper is_ulower fixed_lex bc (3 * length s + 4) (3 * length s + 7) (ps_new s)
+      = Some (toks ++ [(REos, row, erow)]) /\
+    Forall is_tok toks /\ (length toks <= 3 * length s + 3)%nat.
+Proof. intros sp dg up lo bc H1 H2 H3 H4. exact (read_all_total sp dg up lo bc H1 H2 H3 H4). Qed.
+Print Assumptions C02_token_stream.
+
+(* non-vacuity: a text that ends inside a string literal, with ASCII classes: two tokens, then end of stream *)
+Example C02_token_stream_example :
+  let sp := fun c => (c =? 32)%N in
+  let dg := fun c => ((48 <=? c) && (c <=? 57))%N in
+  let src := [120; 32; 34; 97]%N in
+  exists l, read_all sp dg (fun _ => false) (fun _ => true) fixed_lex [] (3 * 4 + 4) (3 * 4 + 7) (ps_new src) = Some l /\
+            map (fun x => fst (fst x)) l = [RTok (KIdent [120%N]) false; RTok (KString [97%N; 10%N]) true; REos].
+Proof. eexists. split; vm_compute; reflexivity. Qed.
